@@ -107,11 +107,41 @@ def make_jobs(chk):
     return jobs
 
 
+def repl_sessions(chk, exe):
+    """exec typed at the prompt of the real tool, also repeated with empty lines (an empty line runs the previous line again)"""
+    import concurrent.futures as cf
+    import repl
+    from c09 import RecJob, hx0
+    quick = chk.tier == "quick"
+    rng = chk.rng
+    lists = ["7 OP_TOALTSTACK OP_DUP", "OP_1", "OP_DUP OP_1ADD", "5 OP_ADD", "OP_1 OP_IF", "OP_ENDIF", "OP_DUP OP_TOALTSTACK", "OP_FROMALTSTACK OP_DROP", "0102 OP_SIZE OP_NIP", "OP_DEPTH"]
+    tasks = []
+    n = 0
+    for k in range(6 if quick else 40):
+        cmds = ["step"] * rng.randrange(0, 3)
+        if k == 0: cmds = ["exec 7 OP_TOALTSTACK OP_DUP", "", "", ""]
+        elif k == 1: cmds = ["step", "exec OP_1 OP_IF", "", "", "exec OP_ENDIF", "", "", "step"]
+        else:
+            for _ in range(rng.randrange(2, 5)):
+                cmds += ["exec " + rng.choice(lists[:5] if k % 2 else lists)] + [""] * rng.randrange(0, 5) + ["step"] * rng.randrange(0, 2)
+        n += 1
+        script = bytes([O["1"], O["2"], O["ADD"], O["3"], O["EQUALVERIFY"], O["1"]])
+        op = {"e": "Open", "id": "x%d:repeat" % n, "repl": True, "script": script.hex(), "stack": ["09"], "flags": drivers.STANDARD, "sigver": "BASE",
+              "z": False, "succ": "", "hist": True, "cmp": ["stack", "alt", "cond"], "weight": 0, "pretend": []}
+        tasks.append((op, [hx0(script), "0x09"], cmds))
+    def do(t):
+        op, argv, cmds = t
+        return (RecJob(op["id"], op), repl.record(exe, argv, cmds, op, views=True))
+    with cf.ThreadPoolExecutor(max_workers=8) as ex:
+        return list(ex.map(do, tasks))
+
+
 def run(chk):
     chk.mc("MC_Rewind", "MC_Rewind_exec.cfg")
-    chk.build()
+    chk.build(mains=("btcdeb",))
     jobs = make_jobs(chk) + c01.probes(chk)
     divs = chk.validate("Trace_Session", jobs, "c16")
+    divs += chk.validate_recorded("Trace_Session", repl_sessions(chk, chk.build_obj.exe("btcdeb")), "c16repl", parallel=6)
     chk.classify(divs)
     return chk.finish(rule=RULE, assumptions=ASSUME)
 
